@@ -333,11 +333,15 @@ def h_betting(ctx: Any, code: str, n: int, depth: int, mode: str = 'T', script: 
                     C.call(ctx, st.post_bring_in)
                     m.do_bring_in()
         else:
-            if act == 'm':
-                # the minimum bet/raise, whatever the engine says it is (model checks the amount)
+            if act in ('m', 'R') or (act and act.isdigit()):
+                # m: the minimum bet/raise; R: the maximum (all-in in no-limit); digit d: raise to 6*d
+                # (whatever the engine says these are - the model checks the bounds at every step)
                 if st.can_complete_bet_or_raise_to():
-                    x = st.min_completion_betting_or_raising_to_amount
-                    C.call(ctx, st.complete_bet_or_raise_to)
+                    x = (st.min_completion_betting_or_raising_to_amount if act == 'm' else
+                         st.max_completion_betting_or_raising_to_amount if act == 'R' else 6 * int(act))
+                    if not st.can_complete_bet_or_raise_to(x):
+                        x = st.min_completion_betting_or_raising_to_amount
+                    C.call(ctx, st.complete_bet_or_raise_to, x)
                     m.do_raise(x)
                     ctx.cover('raised')
                 else:
@@ -409,8 +413,9 @@ def jobs(tier: str, seed: int) -> list[dict]:
     # WSOP rule 96: full raise, short all-in(s), call(s), back to the raiser (who already acted)
     add('NT/n3/rule96/rrc', 7, code='NT', n=3, depth=4, script='rrc', fixed={'0': 1000, '1': 1000},
         cover=['done', 'raise-refused', 'raise-allowed'])
-    add('NT/n4/rule96/rrrc', 7, code='NT', n=4, depth=5, script='rrrc', fixed={'0': 1000, '1': 1000},
-        maxstack=200, cover=['done'])
+    # two consecutive short all-ins (symbolic stacks) after a full raise to 12: below, exactly and above a full raise
+    add('NT/n4/rule96/2RRc', 7, code='NT', n=4, depth=5, script='2RRc', fixed={'1': 1000, '2': 1000},
+        maxstack=60, cover=['done', 'raise-refused', 'raise-allowed'])
     if tier == 'thorough':
         for code in games:
             for k, part in enumerate(weak_orders(['s0', 's1', 's2'])):
